@@ -478,6 +478,9 @@ func (e *Exec) writeElem(st *State, r *Region, idx T, path []int, v Value) {
 	case VStr:
 		a := e.regArr(st, r, key, BV32)
 		e.setRegArr(st, r, key, Store(a, idx, x.T))
+		if idx.Const && key == "" {
+			e.strElems[fmt.Sprintf("%s[%d]", r.Name, idx.V)] = x
+		}
 	case VOpaque:
 		a := e.regArr(st, r, key, BV64)
 		e.setRegArr(st, r, key, Store(a, idx, x.T))
